@@ -52,6 +52,10 @@ IndNext ==
 
 IndSpec == IndInit /\ [][IndNext]_ivars
 
+\* (enumeration of the start states only: no step is taken; used to print start states of sizes whose
+\* successors are too many to enumerate in the quick tier)
+IndNoStep == phase = 0 /\ phase' = 0 /\ UNCHANGED <<T, now, ents, path>>
+
 \* the export is evaluated from the start states (every tree x every expiry pattern x both times)
 IndExport == phase = 0 => ExportOK
 
